@@ -16,7 +16,7 @@ import os
 from typing import Dict, List, Set
 
 from .inline import inline_log, inlined_program
-from .model import FuncInfo, Program
+from .model import FuncInfo, Program, dotted
 
 _ANCHORS_FILE = os.path.join(os.path.dirname(os.path.abspath(__file__)), 'anchors.json')
 _ANCHORS: Set[str] = set()
@@ -50,6 +50,9 @@ def normalised(prog: Program) -> Program:
         return cached
     orig = prog
     from .peval import canonical
+    prog = _merge_new_modules(prog)
+    prog = _closures_for_callable_classes(prog)
+    prog = _closures_for_partials(prog)
     prog = canonical(prog, known_globals())
     prog = _flatten_mixins(prog)
     new = new_functions(prog)
@@ -104,6 +107,362 @@ def normalised(prog: Program) -> Program:
     out.__dict__['_normalised'] = out
     prog.__dict__['_normalised'] = out
     orig.__dict__['_normalised'] = out
+    return out
+
+
+def _closures_for_callable_classes(prog: Program) -> Program:
+    """A NEW class whose only methods are an `__init__` that stores its parameters in attributes and a `__call__` is a closure
+    written as a class ("callable object instead of a nested function").  Where such a class is instantiated from atomic arguments
+    that are parameters / assigned-once locals of the instantiating function, the instantiation is replaced by a nested function
+    with the body of `__call__` in which `self.<attr>` reads are the captured arguments.  Only the call behaviour of the object is
+    represented — which is all the rules look at for the callables the library hands out."""
+    import copy
+    known_funcs = anchors()
+    known_classes = {q.rsplit('.', 1)[0] for q in known_funcs}
+    cands = {}
+    for ci in prog.classes.values():
+        if ci.qualname in known_classes or ci.outer is not None:
+            continue
+        names = set(ci.methods)
+        if names != {'__init__', '__call__'} or ci.bases and any(getattr(b, 'qualname', b) not in ('object',) for b in ci.bases):
+            continue
+        init, call = ci.methods['__init__'], ci.methods['__call__']
+        if call.decorators or init.decorators:
+            continue
+        ia = init.node.args
+        if ia.vararg or ia.kwarg or ia.kwonlyargs or ia.posonlyargs:
+            continue
+        params = [p.arg for p in ia.args[1:]]
+        stores = {}
+        ok = True
+        for st in init.node.body:
+            if isinstance(st, ast.Expr) and isinstance(st.value, ast.Constant):
+                continue
+            if isinstance(st, (ast.Assign, ast.AnnAssign)):
+                tg = st.targets[0] if isinstance(st, ast.Assign) and len(st.targets) == 1 else getattr(st, 'target', None)
+                if isinstance(tg, ast.Attribute) and isinstance(tg.value, ast.Name) and tg.value.id == ia.args[0].arg and \
+                        isinstance(st.value, ast.Name) and st.value.id in params and tg.attr not in stores:
+                    stores[tg.attr] = st.value.id
+                    continue
+            ok = False
+        if not ok or set(stores.values()) != set(params):
+            continue
+        selfn = call.node.args.posonlyargs[0].arg if call.node.args.posonlyargs else call.node.args.args[0].arg if call.node.args.args else None
+        if selfn is None:
+            continue
+        # __call__ uses self only to read the stored attributes
+        bad = False
+        for x in ast.walk(call.node):
+            if isinstance(x, ast.Name) and x.id == selfn:
+                bad = bad or True
+        uses = [x for x in ast.walk(call.node) if isinstance(x, ast.Attribute) and isinstance(x.value, ast.Name) and x.value.id == selfn]
+        n_self = sum(1 for x in ast.walk(call.node) if isinstance(x, ast.Name) and x.id == selfn)
+        if n_self != len(uses) or any(u.attr not in stores or not isinstance(u.ctx, ast.Load) for u in uses):
+            continue
+        # the attributes are written nowhere else
+        if any(isinstance(x, ast.Attribute) and x.attr in stores and isinstance(x.ctx, (ast.Store, ast.Del)) and
+               not any(x is y for y in ast.walk(init.node))
+               for m in prog.modules.values() for x in ast.walk(m.tree)):
+            continue
+        cands[ci.name] = (ci, params, stores, call, selfn)
+    if not cands:
+        return prog
+    trees = dict(prog.tree_overrides)
+    by_rel = {m.rel: m for m in prog.modules.values()}
+    changed = False
+    for rel, m in by_rel.items():
+        if not any(isinstance(x, ast.Call) and isinstance(x.func, ast.Name) and x.func.id in cands for x in ast.walk(m.tree)):
+            continue
+        tree = copy.deepcopy(trees.get(rel, m.tree))
+        for fn in [x for x in ast.walk(tree) if isinstance(x, (ast.FunctionDef, ast.AsyncFunctionDef))]:
+            fparams = {p.arg for p in list(fn.args.posonlyargs) + list(fn.args.args) + list(fn.args.kwonlyargs)} | \
+                ({fn.args.vararg.arg} if fn.args.vararg else set()) | ({fn.args.kwarg.arg} if fn.args.kwarg else set())
+            nstores = {}
+            for x in ast.walk(fn):
+                if isinstance(x, ast.Name) and isinstance(x.ctx, (ast.Store, ast.Del)):
+                    nstores[x.id] = nstores.get(x.id, 0) + 1
+
+            def block(stmts):
+                nonlocal changed
+                i = 0
+                while i < len(stmts):
+                    st = stmts[i]
+                    v = getattr(st, 'value', None) if isinstance(st, (ast.Return, ast.Assign)) else None
+                    if isinstance(v, ast.Call) and isinstance(v.func, ast.Name) and v.func.id in cands and not v.keywords and \
+                            not any(isinstance(a, ast.Starred) for a in v.args):
+                        ci, params, stores_, call, selfn = cands[v.func.id]
+                        if len(v.args) == len(params) and all(isinstance(a, ast.Name) and (a.id in fparams and not nstores.get(a.id) or
+                                                                                            nstores.get(a.id) == 1 and a.id not in fparams)
+                                                              for a in v.args):
+                            bind = dict(zip(params, v.args))
+                            nd = copy.deepcopy(call.node)
+                            if nd.args.posonlyargs:
+                                nd.args.posonlyargs = nd.args.posonlyargs[1:]
+                            else:
+                                nd.args.args = nd.args.args[1:]
+                            nd.name = '_' + ci.name.strip('_') + '_call'
+                            nd.decorator_list = []
+
+                            class _S(ast.NodeTransformer):
+                                def visit_Attribute(self_, x):     # noqa: N805
+                                    self_.generic_visit(x)
+                                    if isinstance(x.value, ast.Name) and x.value.id == selfn and x.attr in stores_:
+                                        return ast.copy_location(ast.Name(id=bind[stores_[x.attr]].id, ctx=ast.Load()), x)
+                                    return x
+                            nd = _S().visit(nd)
+                            # a local of __call__ that shadows a captured name would change its meaning
+                            local_st = {y.id for y in ast.walk(nd) if isinstance(y, ast.Name) and isinstance(y.ctx, ast.Store)} | \
+                                {p.arg for p in list(nd.args.args) + list(nd.args.kwonlyargs) + list(nd.args.posonlyargs)}
+                            if local_st & {a.id for a in v.args}:
+                                i += 1
+                                continue
+                            ast.copy_location(nd, st)
+                            ast.fix_missing_locations(nd)
+                            st.value = ast.copy_location(ast.Name(id=nd.name, ctx=ast.Load()), v)
+                            stmts.insert(i, nd)
+                            changed = True
+                            i += 2
+                            continue
+                    for fld in ('body', 'orelse', 'finalbody'):
+                        sub = getattr(st, fld, None)
+                        if isinstance(sub, list) and sub and isinstance(sub[0], ast.stmt) and not isinstance(st, (ast.FunctionDef, ast.AsyncFunctionDef, ast.ClassDef)):
+                            block(sub)
+                    for h in getattr(st, 'handlers', []) or []:
+                        block(h.body)
+                    i += 1
+            block(fn.body)
+        trees[rel] = tree
+    if not changed:
+        return prog
+    return Program(prog.repo, prog.pkg, overrides=prog.overrides, tree_overrides=trees)
+
+
+def _closures_for_partials(prog: Program) -> Program:
+    """`v = functools.partial(self.h, k=a, ...)` / `partial(h, ...)` where h is a NEW method of the same class / function of the
+    same module ("closure turned into a method plus partial") becomes the nested function it stands for: the parameters of h
+    that the partial does not bind, and h's body with the bound parameters replaced by the (atomic, never reassigned) arguments."""
+    import copy
+    known_funcs = anchors()
+    trees = dict(prog.tree_overrides)
+    changed = False
+    for m in prog.modules.values():
+        if not any(isinstance(x, ast.Call) and (dotted(x.func) or '').rsplit('.', 1)[-1] == 'partial' for x in ast.walk(m.tree)):
+            continue
+        tree = copy.deepcopy(trees.get(m.rel, m.tree))
+        mod_funcs = {st.name: st for st in tree.body if isinstance(st, (ast.FunctionDef, ast.AsyncFunctionDef))}
+        did = False
+        for cls_node in [None] + [st for st in tree.body if isinstance(st, ast.ClassDef)]:
+            holders = tree.body if cls_node is None else cls_node.body
+            methods = {st.name: st for st in holders if isinstance(st, (ast.FunctionDef, ast.AsyncFunctionDef))} if cls_node is not None else {}
+            for fn in [st for st in holders if isinstance(st, (ast.FunctionDef, ast.AsyncFunctionDef))]:
+                fparams = {p.arg for p in list(fn.args.posonlyargs) + list(fn.args.args) + list(fn.args.kwonlyargs)}
+                nstores = {}
+                for x in ast.walk(fn):
+                    if isinstance(x, ast.Name) and isinstance(x.ctx, (ast.Store, ast.Del)):
+                        nstores[x.id] = nstores.get(x.id, 0) + 1
+
+                def atomic_ok(a) -> bool:
+                    return isinstance(a, ast.Constant) or isinstance(a, ast.Name) and (a.id in fparams and not nstores.get(a.id) or
+                                                                                        nstores.get(a.id, 0) <= 1)
+
+                def block(stmts):
+                    nonlocal did
+                    i = 0
+                    while i < len(stmts):
+                        st = stmts[i]
+                        v = getattr(st, 'value', None) if isinstance(st, (ast.Return, ast.Assign)) else None
+                        if isinstance(v, ast.Call) and (dotted(v.func) or '').rsplit('.', 1)[-1] == 'partial' and \
+                                (dotted(v.func) or '').split('.')[0] in ('ft', 'functools', 'partial') and v.args and \
+                                not any(isinstance(a, ast.Starred) for a in v.args) and all(k.arg is not None for k in v.keywords):
+                            target = v.args[0]
+                            h = None
+                            is_method = False
+                            if isinstance(target, ast.Attribute) and isinstance(target.value, ast.Name) and target.value.id == 'self' and \
+                                    target.attr in methods and cls_node is not None:
+                                q = f'{m.name}.{cls_node.name}.{target.attr}'
+                                if q not in known_funcs and not methods[target.attr].decorator_list:
+                                    h, is_method = methods[target.attr], True
+                            elif isinstance(target, ast.Name) and target.id in mod_funcs and f'{m.name}.{target.id}' not in known_funcs and \
+                                    not mod_funcs[target.id].decorator_list:
+                                h = mod_funcs[target.id]
+                            if h is not None and h is not fn and not h.args.vararg and not h.args.kwarg and \
+                                    all(atomic_ok(a) for a in v.args[1:]) and all(atomic_ok(k.value) for k in v.keywords) and \
+                                    not any(isinstance(x, (ast.Yield, ast.YieldFrom, ast.Global, ast.Nonlocal)) for x in ast.walk(h)) and \
+                                    (not is_method or (h.args.args and h.args.args[0].arg == 'self')):
+                                pos = list(h.args.posonlyargs) + list(h.args.args)
+                                if is_method:
+                                    pos = pos[1:]
+                                bind = {}
+                                for p_, a_ in zip(pos, v.args[1:]):
+                                    bind[p_.arg] = a_
+                                if len(v.args) - 1 > len(pos):
+                                    i += 1
+                                    continue
+                                allp = {p_.arg for p_ in pos} | {p_.arg for p_ in h.args.kwonlyargs}
+                                okk = True
+                                for k in v.keywords:
+                                    if k.arg not in allp or k.arg in bind:
+                                        okk = False
+                                    bind[k.arg] = k.value
+                                # a keyword-bound parameter can still be overridden by the caller of the partial: only exact when the
+                                # remaining signature cannot name it, i.e. it is keyword-only or comes after the free positional ones
+                                h_stores = {x.id for x in ast.walk(h) if isinstance(x, ast.Name) and isinstance(x.ctx, (ast.Store, ast.Del))}
+                                if not okk or h_stores & set(bind):
+                                    i += 1
+                                    continue
+                                nd = copy.deepcopy(h)
+                                nd.decorator_list = []
+                                rem_pos = [p_ for p_ in (nd.args.posonlyargs + nd.args.args)[(1 if is_method else 0):] if p_.arg not in bind]
+                                n_def = len(nd.args.defaults)
+                                all_pos = nd.args.posonlyargs + nd.args.args
+                                defaults_by = {p_.arg: d for p_, d in zip(all_pos[len(all_pos) - n_def:], nd.args.defaults)}
+                                nd.args.posonlyargs = []
+                                nd.args.args = rem_pos
+                                nd.args.defaults = [defaults_by[p_.arg] for p_ in rem_pos if p_.arg in defaults_by]
+                                if len(nd.args.defaults) not in (0, len([p_ for p_ in rem_pos if p_.arg in defaults_by])) or \
+                                        any(p_.arg in defaults_by for p_ in rem_pos) and not all(p2.arg in defaults_by for p2 in rem_pos[[p3.arg in defaults_by for p3 in rem_pos].index(True):]):
+                                    i += 1
+                                    continue
+                                kwo, kwd = [], []
+                                for p_, d in zip(nd.args.kwonlyargs, nd.args.kw_defaults):
+                                    if p_.arg not in bind:
+                                        kwo.append(p_)
+                                        kwd.append(d)
+                                nd.args.kwonlyargs, nd.args.kw_defaults = kwo, kwd
+                                shadow = {p_.arg for p_ in rem_pos + kwo} | h_stores
+                                if any(isinstance(a, ast.Name) and a.id in shadow for a in list(bind.values())):
+                                    i += 1
+                                    continue
+
+                                class _S(ast.NodeTransformer):
+                                    def visit_Name(self_, x):     # noqa: N805
+                                        if isinstance(x.ctx, ast.Load) and x.id in bind:
+                                            return ast.copy_location(copy.deepcopy(bind[x.id]), x)
+                                        return x
+                                nd.body = [_S().visit(b) for b in nd.body]
+                                name = st.targets[0].id if isinstance(st, ast.Assign) and len(st.targets) == 1 and isinstance(st.targets[0], ast.Name) \
+                                    else '_' + h.name.strip('_') + '_partial'
+                                nd.name = name
+                                ast.copy_location(nd, st)
+                                ast.fix_missing_locations(nd)
+                                if isinstance(st, ast.Assign) and name == getattr(st.targets[0], 'id', None):
+                                    stmts[i] = nd
+                                else:
+                                    st.value = ast.copy_location(ast.Name(id=name, ctx=ast.Load()), v)
+                                    stmts.insert(i, nd)
+                                    i += 1
+                                did = True
+                        for fld in ('body', 'orelse', 'finalbody'):
+                            sub = getattr(st, fld, None)
+                            if isinstance(sub, list) and sub and isinstance(sub[0], ast.stmt) and not isinstance(st, (ast.FunctionDef, ast.AsyncFunctionDef, ast.ClassDef)):
+                                block(sub)
+                        for hd in getattr(st, 'handlers', []) or []:
+                            block(hd.body)
+                        i += 1
+                block(fn.body)
+        if did:
+            trees[m.rel] = tree
+            changed = True
+    if not changed:
+        return prog
+    return Program(prog.repo, prog.pkg, overrides=prog.overrides, tree_overrides=trees)
+
+
+def known_modules() -> Set[str]:
+    with open(_ANCHORS_FILE) as fh:
+        return set(json.load(fh).get('modules', []))
+
+
+def _merge_new_modules(prog: Program) -> Program:
+    """A NEW module (not a module of the reference tree) that consists of imports and definitions only, and from which exactly one
+    known module imports names (`from .batch import Batch, AsyncBatch`), is code that was moved out of that module: its definitions
+    are put back in place of the import statement (with the new module's own imports), and the new module becomes a re-export.
+    Qualified names, and everything the rules say about "the classes of pjrpc.client.client", then read as before the move."""
+    import copy
+    known = known_modules()
+    if not known:
+        return prog
+    fresh = [m for m in prog.modules.values() if m.name not in known]
+    if not fresh:
+        return prog
+    trees = dict(prog.tree_overrides)
+    changed = False
+    for M in fresh:
+        body = list(M.tree.body)
+        ok = True
+        defs: Dict[str, ast.stmt] = {}
+        imports: List[ast.stmt] = []
+        for st in body:
+            if isinstance(st, ast.Expr) and isinstance(st.value, ast.Constant) and isinstance(st.value.value, str):
+                continue
+            if isinstance(st, (ast.Import, ast.ImportFrom)):
+                imports.append(st)
+            elif isinstance(st, (ast.ClassDef, ast.FunctionDef, ast.AsyncFunctionDef)):
+                defs[st.name] = st
+            elif isinstance(st, (ast.Assign, ast.AnnAssign)) and all(isinstance(t, ast.Name) for t in (st.targets if isinstance(st, ast.Assign) else [st.target])):
+                for t in (st.targets if isinstance(st, ast.Assign) else [st.target]):
+                    defs[t.id] = st      # type: ignore[union-attr]
+            elif isinstance(st, ast.If) and 'TYPE_CHECKING' in ast.unparse(st.test) and \
+                    all(isinstance(x, (ast.Import, ast.ImportFrom)) for x in st.body) and not st.orelse:
+                continue        # imports for annotations only
+            else:
+                ok = False
+        if not ok or not defs:
+            continue
+        importers = []
+        for K in prog.modules.values():
+            if K is M or K.name not in known:
+                continue
+            for st in K.tree.body:
+                if isinstance(st, ast.ImportFrom):
+                    base = K.name.split('.') if K.is_pkg else K.name.split('.')[:-1]
+                    if st.level > 1:
+                        base = base[:-(st.level - 1)]
+                    target = '.'.join(base + ([st.module] if st.module else [])) if st.level else (st.module or '')
+                    if target == M.name:
+                        importers.append((K, st))
+        if len(importers) != 1:
+            continue
+        K, imp = importers[0]
+        if any(a.name == '*' or a.asname not in (None, a.name) or a.name not in defs for a in imp.names):
+            continue
+        k_names = set()
+        for st in K.tree.body:
+            if isinstance(st, (ast.ClassDef, ast.FunctionDef, ast.AsyncFunctionDef)):
+                k_names.add(st.name)
+            elif isinstance(st, (ast.Assign, ast.AnnAssign)):
+                for t in (st.targets if isinstance(st, ast.Assign) else [st.target]):
+                    if isinstance(t, ast.Name):
+                        k_names.add(t.id)
+        if k_names & set(defs):
+            continue
+        ktree = copy.deepcopy(trees.get(K.rel, K.tree))
+        idx = None
+        for i, st in enumerate(ktree.body):
+            if isinstance(st, ast.ImportFrom) and st.lineno == imp.lineno and [a.name for a in st.names] == [a.name for a in imp.names]:
+                idx = i
+        if idx is None:
+            continue
+        moved: List[ast.stmt] = []
+        seen_defs = set()
+        for st in body:
+            if isinstance(st, (ast.Import, ast.ImportFrom)):
+                # the new module's import of K itself (cyclic, for annotations) is meaningless inside K
+                moved.append(copy.deepcopy(st))
+            elif any(st is d for d in defs.values()) and id(st) not in seen_defs:
+                seen_defs.add(id(st))
+                moved.append(copy.deepcopy(st))
+        ktree.body[idx:idx + 1] = moved
+        trees[K.rel] = ktree
+        # the new module re-exports from K
+        rel_names = sorted(defs)
+        mtree = ast.Module(body=[ast.ImportFrom(module=K.name, names=[ast.alias(name=n) for n in rel_names], level=0)], type_ignores=[])
+        ast.fix_missing_locations(mtree)
+        trees[M.rel] = mtree
+        changed = True
+    if not changed:
+        return prog
+    out = Program(prog.repo, prog.pkg, overrides=prog.overrides, tree_overrides=trees)
     return out
 
 
@@ -236,6 +595,7 @@ def write_anchor_table(prog: Program) -> int:
         json.dump({'_comment': 'qualified names of the functions of the tree the rules were written against (names only); '
                                'functions not listed here are inlined into their callers before analysis (pjx/normal.py)',
                    'functions': funcs,
+                   'modules': sorted(prog.modules),
                    'globals_comment': 'module-level and class-level names of the same tree (names only); a NEW name bound once to an '
                                       'immutable expression is a constant that pjx/peval.py replaces by its value',
                    'globals': sorted(globs)}, fh, indent=0)
